@@ -19,11 +19,15 @@
       set / put does so only after an fsync answered with an error
       ([C18_writers_panic_only_after_failed_flush]); the planner's assertion is
       unreachable (C08).
+    - reported, for lookups through stacks of any depth: a lookup that returns a
+      result (hit or miss) received no error other than an absence at any of its
+      read-only opens - an I/O, permission or descriptor-exhaustion error at ANY
+      level surfaces, it is never turned into a miss ([C18_lookups_report_errors]).
     What "reported" requires beyond this (every non-absent error surfaces, the
     documented exceptions aside) is established by the exhaustive single-fault
     enumeration against this model (vlib/c18.py). *)
 From Coq Require Import List NArith ZArith String Bool Arith.
-From Kismet Require Import Pure.Hash FS.Fs FS.Prog Spec.Wp Ops.Ops Conc.Pool Conc.Effect Conc.Immut Proofs.NeverMasked Seq.Plain Proofs.KvSeq Proofs.NoPanic.
+From Kismet Require Import Pure.Hash FS.Fs FS.Prog Spec.Wp Ops.Ops Conc.Pool Conc.Effect Conc.Immut Proofs.NeverMasked Seq.Plain Proofs.KvSeq Proofs.NoPanic Proofs.LookupErrors.
 Import ListNotations.
 
 Theorem C18_set_success_means_published : forall cfg k v w o,
@@ -93,6 +97,22 @@ Example C18_panic_example :
     (match r with Ok _ => 0 | Err _ => 1 | Panic => 2 end, mon_run np_step false tr)%nat in
   go None = (0%nat, Some false) /\ go (Some (1%nat, EIO)) = (2%nat, Some true) /\ go (Some (0%nat, EIO)) = (1%nat, Some false).
 Proof. vm_compute. repeat split. Qed.
+
+(** Lookups report errors (any depth, all responses). *)
+Theorem C18_lookups_report_errors : forall cfg k, s_checker cfg = None ->
+  forall s, wp le_step (cache_get cfg k) (fun r s' => match r with Ok _ => s' = s | _ => True end) s.
+Proof. exact lookups_report_errors. Qed.
+
+Theorem C18_lookups_report_errors_on_every_run : forall cfg k w o, s_checker cfg = None ->
+  let '(r, _, _, tr) := run (cache_get cfg k) w o in
+  match r with Ok _ => mon_run le_step false tr = Some false | _ => True end.
+Proof. intros cfg k w o H. exact (lookups_report_errors_run cfg k w o H). Qed.
+
+Theorem C18_lookup_error_monitor_meaning : forall p,
+  le_step false (EvCall (COpen p RDONLY) (RErr ENOENT)) = Some false /\ le_step false (EvCall (COpen p RDONLY) (RErr ESTALE)) = Some false /\
+  le_step false (EvCall (COpen p RDONLY) (RErr EIO)) = Some true /\ le_step false (EvCall (COpen p RDONLY) (RErr EACCES)) = Some true /\
+  le_step false (EvCall (COpen p RDONLY) (RErr EMFILE)) = Some true.
+Proof. intros. repeat split. Qed.
 
 (** For arbitrary results, not only those a run of the model produces. *)
 Theorem C18_never_masked_all_responses : forall cfg k v, pubs (cache_set cfg k v) /\ pubs (cache_put cfg k v).
